@@ -37,6 +37,8 @@ MODES = [("files", []), ("stdout", ["--emit", "stdout"]), ("check", ["--check"])
          ("checkstyle", ["--emit", "checkstyle"])]
 MACRO = '''macro_rules! mk{($a:ident,$ab:expr,$abc:ty)=>{fn $a()->$abc{let v=$ab;v}};($x:expr)=>{$x+1};}
 '''
+ASYNC18 = "async fn  af( ){ }\nfn  uses_dyn(x:&dyn Fn()){ }\n"
+ASYNC15 = "fn  old( ){let async=1;let r#try=2;}\n"
 SKIPMAC = '''#![rustfmt::skip::macros(keep,keep2)]
 fn  uses( ){keep!( a ,b );keep2!(1 ,  2);other!( a ,b );}
 '''
@@ -53,7 +55,7 @@ def generate(rng, tier):
         else:
             d = "d%d" % i
         dirs.append(d)
-        extra = rng.choice(["", "", "", MACRO, SKIPMAC])
+        extra = rng.choice(["", "", "", MACRO, SKIPMAC, ASYNC18, ASYNC18, ASYNC15])
 
         def body(r, extra=extra):
             return extra + gen_rust.unformatted(r, 1 + r.below(3))
@@ -70,6 +72,7 @@ def generate(rng, tier):
             opts = gen_config.draw_opts(rng, rng.range(1, 3), allow_alias=False,
                                         keys=["tab_spaces", "max_width", "hard_tabs", "brace_style", "fn_params_layout",
                                               "newline_style", "reorder_imports", "imports_granularity", "style_edition",
+                                              "edition", "edition",
                                               "trailing_comma", "control_brace_style", "use_small_heuristics"])
             txt = gen_config.render(opts)
             mods = [f for f in t.reach[1:] if os.path.basename(f) != "mod.rs"]
